@@ -94,7 +94,7 @@ func (p *Prog) inlineOverlay(overlay map[string][]byte, forceBlock map[string]bo
 			switch x := m.(type) {
 			case *ast.FuncLit:
 				return false
-			case *ast.DeferStmt, *ast.GoStmt, *ast.LabeledStmt:
+			case *ast.DeferStmt, *ast.LabeledStmt:
 				ok = false
 			case *ast.BranchStmt:
 				if x.Tok == token.GOTO || x.Label != nil {
@@ -239,8 +239,15 @@ func (p *Prog) inlineOverlay(overlay map[string][]byte, forceBlock map[string]bo
 					case *ast.TypeSwitchStmt:
 						return true
 					}
+					// `if a, b = helper(); cond {` is `a, b = helper(); if cond {`: the statement that has to stand in a list is the if
+					anchor, ai := stmt, si
+					if ifs, isIf := stack[si-1].(*ast.IfStmt); isIf && si >= 2 && ifs.Init == stmt {
+						if _, isAs := stmt.(*ast.AssignStmt); isAs && !done[ifs] {
+							anchor, ai = ifs, si-1
+						}
+					}
 					var list []ast.Stmt
-					switch par := stack[si-1].(type) {
+					switch par := stack[ai-1].(type) {
 					case *ast.BlockStmt:
 						list = par.List
 					case *ast.CaseClause:
@@ -250,7 +257,7 @@ func (p *Prog) inlineOverlay(overlay map[string][]byte, forceBlock map[string]bo
 					}
 					member := false
 					for _, s := range list {
-						if s == stmt {
+						if s == anchor {
 							member = true
 						}
 					}
@@ -279,9 +286,17 @@ func (p *Prog) inlineOverlay(overlay map[string][]byte, forceBlock map[string]bo
 					}
 					var b strings.Builder
 					var bound []string
+					paramUnify := map[string]bool{} // parameters that ARE variables the statement assigns (direct form)
+					useParamUnify := false
 					bind := func(name string, t types.Type, arg string) bool {
 						if arg == "" {
 							return false
+						}
+						if useParamUnify && paramUnify[name] {
+							if arg != name {
+								fmt.Fprintf(&b, "%s = %s\n", name, arg)
+							}
+							return true
 						}
 						// an argument must not mention a name bound before it (it would be captured)
 						for _, bn := range bound {
@@ -514,10 +529,25 @@ func (p *Prog) inlineOverlay(overlay map[string][]byte, forceBlock map[string]bo
 									}
 								}
 							}
+							// a parameter that carries the name and the type of a target is that target too (value, ended =
+							// accumulate(value): the helper works on the caller's variable)
+							paramIdent := map[*ast.Ident]bool{}
+							if fd.Type.Params != nil {
+								for _, fl := range fd.Type.Params.List {
+									for _, nm := range fl.Names {
+										if i, hit := targets[nm.Name]; hit {
+											if pv, _ := info.Defs[nm].(*types.Var); pv != nil && types.Identical(pv.Type(), sig.Results().At(i).Type()) {
+												paramIdent[nm] = true
+												paramUnify[nm.Name] = true
+											}
+										}
+									}
+								}
+							}
 							rew := map[*ast.AssignStmt]bool{}
 							ast.Inspect(fd, func(q ast.Node) bool {
 								id, isId := q.(*ast.Ident)
-								if !isId || resultIdent[id] {
+								if !isId || resultIdent[id] || paramIdent[id] {
 									return true
 								}
 								obj, isVar := info.Defs[id].(*types.Var)
@@ -558,6 +588,7 @@ func (p *Prog) inlineOverlay(overlay map[string][]byte, forceBlock map[string]bo
 						}
 						if okU {
 							directU = true
+							useParamUnify = true
 							b.Reset()
 							temps = names
 							for _, h := range hoistU {
@@ -783,6 +814,18 @@ func (p *Prog) inlineOverlay(overlay map[string][]byte, forceBlock map[string]bo
 						}
 					}
 					done[stmt] = true
+					if anchor != stmt {
+						// the if without its init statement stands behind what took the init's place
+						ifs := anchor.(*ast.IfStmt)
+						done[anchor] = true
+						co, ae := p.Fset.Position(ifs.Cond.Pos()).Offset, p.Fset.Position(anchor.End()).Offset
+						aa := p.Fset.Position(anchor.Pos())
+						if co < aa.Offset || ae > len(csrc) || co > ae {
+							return true
+						}
+						b.WriteString("\nif " + string(csrc[co:ae]))
+						sa, se = aa, p.Fset.Position(anchor.End())
+					}
 					edits[sa.Filename] = append(edits[sa.Filename], edit{sa.Offset, se.Offset - sa.Offset, b.String(), f,
 						fmt.Sprintf("%s inlined into %s", p.FuncName(f), p.DeclName(caller))})
 					return true
